@@ -322,6 +322,11 @@ theorem windows_ratio (mult : Rat) (total : Nat) :
           · simp [hlt2] at hrest
     · simp [hlt] at h
 
+/-- A positive number of remaining slow iterations always yields at least one slow window. -/
+theorem windows_nonempty (mult : Rat) (total fuel counter w : Nat) (h : counter < total) :
+    windows mult total (fuel + 1) counter w ≠ [] := by
+  unfold windows; simp [h]
+
 /-! ### Non-vacuity: concrete instances of the hypotheses -/
 
 example : windowedStages {} 1000 500 false =
